@@ -821,6 +821,12 @@ class _ArraySizeInferInstance(DefaultVisitor):
 
     def _visit_return(self, stmt: ReturnStmt, ctx: None):
         ret_size = self._visit_expr(stmt.expr, ctx)
+        if self._cond_depth > 0:
+            # An early return: a run that takes it never reaches what follows,
+            # so nothing after it -- a strict `zip`, an assert -- holds on
+            # every execution any more.  (Never undone: `_branch` only takes
+            # back its own increment.)
+            self._cond_depth += 1
         if not isinstance(ret_size, ListSize):
             return
         # Across multiple returns, unify: concrete iff all paths agree.
